@@ -134,8 +134,17 @@ func (k Keeper) CalculateBatchAllocation(ctx context.Context, auction types.Auct
 		mInfo.RefundMap[bidder] = reservedAmtByBidder[bidder].Sub(bidderRes.PayingAmount)
 	}
 
+	// Flag exactly the bids matched by this matching; a bid that was matched in an earlier
+	// round but is outbid now must not keep its flag.
+	matchedBidIds := map[uint64]bool{}
 	for _, bid := range matchRes.MatchedBids {
-		bid.SetMatched(true)
+		matchedBidIds[bid.Id] = true
+	}
+	for _, bid := range bids {
+		if bid.IsMatched == matchedBidIds[bid.Id] {
+			continue
+		}
+		bid.SetMatched(matchedBidIds[bid.Id])
 		if err := k.Bid.Set(ctx, collections.Join(bid.AuctionId, bid.Id), bid); err != nil {
 			return mInfo, err
 		}
